@@ -1,6 +1,7 @@
 package simrt
 
 import (
+	"os"
 	"fmt"
 	"reflect"
 	"sort"
@@ -185,7 +186,15 @@ func poolOf(p *sync.Pool) *poolState {
 	return st
 }
 
+var noPoolReuse = os.Getenv("VERIF_NOPOOL") != "" // debugging aid
+
 func PoolGet(p *sync.Pool) any {
+	if noPoolReuse {
+		if p.New != nil {
+			return p.New()
+		}
+		return nil
+	}
 	poolMu.Lock()
 	st := poolOf(p)
 	if n := len(st.items); n > 0 {
